@@ -161,6 +161,15 @@ def _recording(inp):
     return k, _RECS[k]
 
 
+def _relocated(rec, inp):
+    """`"ad": true`: the recording carries a relative path, the directory is passed as `audio_dir`"""
+    if not inp.get("ad"):
+        return rec, {}
+    from pathlib import Path
+    full = str(rec.path)
+    return rec.model_copy(update={"path": Path(os.path.basename(full))}), {"audio_dir": os.path.dirname(full)}
+
+
 def _sr(inp):
     """the recording's own samplerate `int(file rate x expansion)`"""
     return int(Fraction(inp["fsr"]) * frac(inp.get("te", "1")))
@@ -223,12 +232,14 @@ def _impl_load_clip(inp):
     from soundevent.audio import load_clip
     import soundfile as sf
     _k, rec = _recording(inp)
+    rec, kw = _relocated(rec, inp)
     clip = data.Clip(recording=rec, start_time=float(frac(inp["s"])), end_time=float(frac(inp["e"])))
     try:
-        arr = load_clip(clip)
+        arr = load_clip(clip, **kw)
     except sf.LibsndfileError:
         return {"raise": "seek"}
-    assert arr.dims == ("time", "channel")
+    if arr.dims != ("time", "channel") or list(arr.channel.data) != list(range(arr.shape[1])):
+        return {"raise": "crash:dims", "trace": f"dims {arr.dims}, channel coordinate {list(arr.channel.data)}"}
     return {"val": {"frames": _codes_out(arr.data), "times": _rats(arr.time.data),
                     "step": rat(float(arr.time.attrs["step"]))},
             "aux": {"rec_sr": rec.samplerate, "channels": int(arr.shape[1])}}
@@ -250,7 +261,10 @@ def _impl_recording_of(inp):
     """Recording.from_file + load_recording on it"""
     from soundevent.audio import load_recording
     k, rec = _recording(inp)
-    arr = load_recording(rec)
+    rec2, kw = _relocated(rec, inp)
+    arr = load_recording(rec2, **kw)
+    if arr.dims != ("time", "channel") or list(arr.channel.data) != list(range(arr.shape[1])):
+        return {"raise": "crash:dims", "trace": f"dims {arr.dims}, channel coordinate {list(arr.channel.data)}"}
     return {"val": {"frames": _codes_out(arr.data), "times": _rats(arr.time.data),
                     "step": rat(float(arr.time.attrs["step"]))},
             "aux": {"sr": rec.samplerate, "duration": rat(rec.duration)}}
@@ -278,20 +292,22 @@ def _impl_clip_spectrogram(inp):
     return _spec_out(spec, audio)
 
 
-def _synthetic_audio(n, t0, sr, ch):
+def _synthetic_audio(n, t0, sr, ch, nostep=False):
+    """`nostep`: the time coordinate carries no `step` attribute (the code estimates it from the
+    coordinates; generated only where that mean is exact: power-of-two rates, dyadic start)"""
     import numpy as np
     import xarray as xr
     from soundevent.arrays import create_time_dim_from_array
     times = np.array([float(t0 + Fraction(i, sr)) for i in range(n)], dtype=np.float64)
     data = ((np.arange(n * ch).reshape(n, ch) * 37) % 101 - 50) / 64.0
-    return xr.DataArray(data, dims=("time", "channel"),
-                        coords={"time": create_time_dim_from_array(times, samplerate=sr), "channel": range(ch)})
+    tdim = create_time_dim_from_array(times) if nostep else create_time_dim_from_array(times, samplerate=sr)
+    return xr.DataArray(data, dims=("time", "channel"), coords={"time": tdim, "channel": range(ch)})
 
 
 def _impl_spectrogram(inp):
     """compute_spectrogram on a synthetic array: `len` samples from `t0` at `sr` Hz"""
     from soundevent.audio import compute_spectrogram
-    audio = _synthetic_audio(inp["len"], frac(inp["t0"]), inp["sr"], inp.get("ch", 1))
+    audio = _synthetic_audio(inp["len"], frac(inp["t0"]), inp["sr"], inp.get("ch", 1), inp.get("nostep", False))
     spec = compute_spectrogram(audio, float(frac(inp["w"])), float(frac(inp["h"])))
     return _spec_out(spec, audio)
 
@@ -315,7 +331,7 @@ def _impl_clip_resample(inp):
 
 def _impl_resample(inp):
     from soundevent.audio.operations import resample
-    audio = _synthetic_audio(inp["n"], frac(inp["t0"]), inp["sr"], inp.get("ch", 1))
+    audio = _synthetic_audio(inp["n"], frac(inp["t0"]), inp["sr"], inp.get("ch", 1), inp.get("nostep", False))
     out = resample(audio, inp["target"])
     return {"val": {"coords": _rats(out.time.data), "step": rat(float(out.time.attrs["step"]))},
             "aux": {"t0": rat(float(audio.time.data[0])), "n": inp["n"], "shape": list(out.shape)}}
@@ -702,14 +718,17 @@ def _match_long_window(failure, m):
 
 
 def _match_resample_chain(failure, m):
-    """C15-2: second of two resamplings, the first of which did not realise its advertised step
-    (n x target1 / samplerate is not whole); only the axis monitor's verdict on the second axis"""
+    """C15-2: second of two resamplings, the first of which did not realise its advertised step (its
+    `num` samples span `n` input steps with num / target1 != n / samplerate - because n x target1 /
+    samplerate is not whole, or because binary64 truncated a whole product such as 219 x 80000 / 48000
+    to 364); only the axis monitor's verdict on the second axis"""
     if failure.op != "resample_chain" or failure.kind != "property":
         return False
     if not failure.detail.startswith("resample of a resampled array: axis does not tell the truth"):
         return False
     inp = failure.inp
-    return (inp["n"] * inp["target1"]) % inp["sr"] != 0
+    n1 = len(failure.impl["val"]["first"]["coords"])
+    return n1 * inp["sr"] != inp["n"] * inp["target1"]
 
 
 FINDING_MATCHERS = {"window_longer_than_audio": _match_long_window,
@@ -840,6 +859,9 @@ def _clip_cases(ctx, pool, count, grid):
         base = rng.choice(pool)
         kind, s, e = _gen_clip_times(rng, base, grid)
         inp = {**base, "s": rat(s), "e": rat(e)}
+        if rng.random() < 0.1:
+            inp["ad"] = True
+            ctx.tally("clip:relative path + audio_dir")
         ctx.tally(f"clip:{'grid' if grid else 'free'}:{kind}")
         ctx.tally("clip:channels=%d" % base["file"]["ch"])
         ctx.tally("clip:te=%s" % base["te"])
@@ -952,7 +974,11 @@ def _synthetic_spec_cases(ctx, count):
             w = Fraction(n + extra, sr)
             h = Fraction(rng.randint(max(1, extra), n + extra), sr)
             ctx.tally("spectrogram:synthetic:window-longer-than-audio")
-        out.append({"len": n, "t0": rat(t0), "sr": sr, "ch": rng.choice([1, 2]), "w": rat(w), "h": rat(h)})
+        case = {"len": n, "t0": rat(t0), "sr": sr, "ch": rng.choice([1, 2]), "w": rat(w), "h": rat(h)}
+        if _pow2(sr) and rng.random() < 0.5:
+            case.update(t0=rat(Fraction(rng.randint(0, 4000), 16)), nostep=True)
+            ctx.tally("spectrogram:synthetic:no step attribute (estimated)")
+        out.append(case)
         ctx.tally("spectrogram:synthetic")
     return out
 
@@ -997,7 +1023,11 @@ def _synthetic_resample_cases(ctx, count):
             target = max(1, sr // 2)
         if n * target < sr and rng.random() < 0.9:
             target = -(-2 * sr // n)
-        out.append({"n": n, "t0": rat(t0), "sr": sr, "ch": rng.choice([1, 2]), "target": int(target)})
+        case = {"n": n, "t0": rat(t0), "sr": sr, "ch": rng.choice([1, 2]), "target": int(target)}
+        if _pow2(sr) and rng.random() < 0.5:
+            case.update(t0=rat(Fraction(rng.randint(0, 4000), 16)), nostep=True)
+            ctx.tally("resample:synthetic:no step attribute (estimated)")
+        out.append(case)
         ctx.tally("resample:synthetic")
     return out
 
@@ -1065,7 +1095,7 @@ def _stage_clips(ctx):
 def _stage_recordings(ctx):
     ctx.run_cases(OPS["load_recording"], _recording_cases(ctx.rng, ctx.budget(60, 400)))
     pool = getattr(ctx, "c15_pool", None) or _file_pool(ctx.rng, 6)
-    ctx.run_cases(OPS["recording_of_file"], [dict(b) for b in pool])
+    ctx.run_cases(OPS["recording_of_file"], [dict(b) for b in pool] + [dict(b, ad=True) for b in pool[:4]])
 
 
 def _stage_spectrograms(ctx):
